@@ -283,4 +283,52 @@ theorem handler_under_lock_starves_keepalive :
   have r5 : Reach true s5 := .step r4 (.advance s4 600 nu4)
   exact ⟨s5, r5, rfl, rfl⟩
 
+/-- What the harness sees when a keep-alive ping is starved (zz_verif_keepalive_test.go, kaStarveLoop): the
+keep-alive goroutine is at the shared lock and NO goroutine can run without time passing — every goroutine is
+blocked, the keep-alive one on the mutex. -/
+def Stalled (s : St) : Prop := (∃ t, s.ka = .waitLock t) ∧ ¬ Urgent s
+
+/-- **The code never reaches the state the harness reports as `starved=`**: with the regenerated statement order
+(`lock_discipline`), whenever keep-alive is at the shared lock somebody can run — keep-alive itself when the lock
+is free, its holder (inside a critical section without user code) otherwise. -/
+theorem never_stalled {s : St} (h : Reach false s) : ¬ Stalled s := by
+  rintro ⟨⟨t, ht⟩, hu⟩
+  have i := reach_inv h
+  cases hh : s.held with
+  | false => exact hu (.inr (.inr ⟨hh, .inl ⟨t, ht⟩⟩))
+  | true =>
+    rcases i.holder hh with h' | h'
+    · exact hu (.inl h')
+    · exact hu (.inr (.inl h'))
+
+/-- … and the other statement order does (the history of `handler_under_lock_starves_keepalive`, one step
+earlier): handler 0 parked until 2478 with the lock, keep-alive at the lock since 1000, nobody can run. -/
+theorem handler_under_lock_stalls : ∃ s, Reach true s ∧ Stalled s ∧ s.hs 0 = .parkedHolding 2478 := by
+  let s0 := init
+  have r0 : Reach true s0 := .init
+  have nu0 : ¬ Urgent s0 := by simp [Urgent, s0, init]
+  let s1 : St := { s0 with now := s0.now + 737 }
+  have r1 : Reach true s1 := .step r0 (.advance s0 737 nu0)
+  let s2 : St := { s1 with hs := upd s1.hs 0 (.parkedHolding (s1.now + 1741)), held := true }
+  have r2 : Reach true s2 := .step r1 (.hStartLocked s1 0 1741 rfl rfl rfl)
+  have nu2 : ¬ Urgent s2 := by
+    simp only [Urgent, s2, s1, s0, init, upd]
+    intro h
+    rcases h with ⟨t, h⟩ | ⟨i, h⟩ | ⟨h, _⟩
+    · simp at h
+    · by_cases hi : i = 0 <;> simp [hi] at h
+    · simp at h
+  let s3 : St := { s2 with now := s2.now + 263 }
+  have r3 : Reach true s3 := .step r2 (.advance s2 263 nu2)
+  let s4 : St := { s3 with ka := .waitLock s3.now }
+  have r4 : Reach true s4 := .step r3 (.kTick s3 rfl)
+  have nu4 : ¬ Urgent s4 := by
+    simp only [Urgent, s4, s3, s2, s1, s0, init, upd]
+    intro h
+    rcases h with ⟨t, h⟩ | ⟨i, h⟩ | ⟨h, _⟩
+    · simp at h
+    · by_cases hi : i = 0 <;> simp [hi] at h
+    · simp at h
+  exact ⟨s4, r4, ⟨⟨_, rfl⟩, nu4⟩, by simp [s4, s3, s2, s1, s0, init, upd]⟩
+
 end KeepAlive.Indep
